@@ -341,6 +341,55 @@ func (w *world) switchTo(img string) error {
 	return w.open()
 }
 
+// probeIndexCrash: the databases recovered from the directory as it was after the k-th store commit of an index flush.
+// Every series the recovered dictionary knows keeps its id, and a series created now does not get an id the recovered
+// dictionary already uses for another series of the metric.
+func (w *world) probeIndexCrash(img string, k int, kn *known) {
+	meta, err := index.NewMetricMetaDatabase("verifdb", filepath.Join(img, "meta"))
+	if err != nil {
+		w.out.Violation(0, "reopen-blocked", fmt.Sprintf("crash after store commit %d of the index flush: %v", k, err), nil)
+		return
+	}
+	defer meta.Close()
+	idx, err := index.NewMetricIndexDatabase(filepath.Join(img, "index"), meta)
+	if err != nil {
+		w.out.Violation(0, "reopen-blocked", fmt.Sprintf("crash after store commit %d of the index flush: %v", k, err), nil)
+		return
+	}
+	defer idx.Close()
+	w.out.Count("index-flush-crash-probes")
+	for key, mid := range kn.mids {
+		ns, m := key[0], key[1]
+		used := map[uint32]int{} // id -> tag set that holds it in the recovered dictionary
+		var missing []int
+		for t := range tsPool {
+			row, _ := buildRow(ns, m, tsPool[t])
+			id, ok, err := index.VerifLookupSeries(idx, metric.ID(mid), row.TagsHash())
+			if err != nil {
+				continue
+			}
+			if ok {
+				used[id] = t
+			} else {
+				missing = append(missing, t)
+			}
+		}
+		for _, t := range missing {
+			row, _ := buildRow(ns, m, tsPool[t])
+			id, err := idx.GenSeriesID(metric.ID(mid), row)
+			if err != nil {
+				continue
+			}
+			if other, clash := used[id]; clash {
+				w.out.Violation(0, "series-id-reused-after-a-crash-inside-the-index-flush",
+					fmt.Sprintf("crash after store commit %d of the index flush: metric %d, the new series (tag set %d) got id %d which the recovered dictionary holds for tag set %d", k, mid, t, id, other), nil)
+				return
+			}
+			used[id] = t
+		}
+	}
+}
+
 // a step a concurrent caller runs at a scheduling point of Flush
 type hookStep struct {
 	K string `json:"k"` // metric, field, tagvalue, tagkey, prepare, look, crash
@@ -507,10 +556,28 @@ func (w *world) run(s step, kn *known) {
 	case "iflush":
 		w.idx.PrepareFlush()
 		w.emit("IPrepare", unobs)
-		if err := w.idx.Flush(); err != nil {
+		// the index flush is one step of the model; the directory as it is after each of its store commits is kept and
+		// probed afterwards (crash inside the flush: no model state, the property itself on the recovered databases)
+		var imgs []string
+		verifhook.Set(func(p string) {
+			if p == "kv.flush.afterCommit" && !w.failed {
+				if img, err := w.crashImage(); err == nil {
+					imgs = append(imgs, img)
+				}
+			}
+		})
+		err := w.idx.Flush()
+		verifhook.Set(nil)
+		if err != nil {
 			w.fail("index Flush", err)
 		}
 		w.emit("IFlush", unobs)
+		for i, img := range imgs {
+			if i < len(imgs)-1 { // the last image is the completed flush
+				w.probeIndexCrash(img, i+1, kn)
+			}
+			_ = os.RemoveAll(img)
+		}
 	case "flush":
 		w.flush(s, kn)
 	case "crash", "reopen":
